@@ -251,6 +251,7 @@ package server
 //@   modifies Lock.manager, Lock.command, Lock.protocol, Lock.startTime, Lock.expriedTime, Lock.expriedCheckedCount, Lock.timeoutTime, Lock.timeoutCheckedCount, Lock.longWaitIndex, LockManager.refCount@self, LockQueue.*, E_LJPserver_Lock, E_Pserver_Lock, E_int32, BinaryServerProtocol.*, TextServerProtocol.*, MemWaiterServerProtocol.*, ProxyServerProtocol.*, TransparencyBinaryServerProtocol.*, TransparencyTextServerProtocol.*, Stream.*, StreamWriterBuffer.*, StreamReaderBuffer.*, protocol.TextParser.*
 
 //@ func (*LockManager).AddWaitLock
+//@   at call LockManagerWaitQueue.Push assert C19.priority.switch,C04.priority.switch: implies(calls(MaxPriority) == 1 && ite(lock.command.TimeoutFlag&0x0010 != 0, lock.command.Rcount, 0) != ghost.lastMaxPriority[ref(self.waitLocks)], calls(RePushPriorityRingQueue) == 1)
 //@   requires self != nil && lock != nil && lock.command != nil
 //@   ensures C04.queued: self.waited && result == lock && self.waitLocks != nil
 //@   ensures lock.refCount == u8(old(lock.refCount) + 1) && lock.locked == old(lock.locked) && lock.manager == old(lock.manager) && lock.command == old(lock.command) && lock.timeouted == old(lock.timeouted) && lock.ackCount == old(lock.ackCount)
@@ -405,6 +406,7 @@ package server
 
 //@ func (*LockDB).RemoveLongExpried
 //@   requires self != nil && lock != nil && lock.manager != nil
+//@   ensures C17.ref.moved: lock.refCount == u8(old(lock.refCount) - 1) || lock.refCount == old(lock.refCount)
 //@   ensures forallref(l, Lock, implies(l != lock, l.locked == old(l.locked) && l.refCount == old(l.refCount) && l.command == old(l.command) && l.manager == old(l.manager)))
 //@   ensures lock.locked == old(lock.locked) && lock.command == old(lock.command) && lock.manager == old(lock.manager)
 //@   modifies LockQueue.*, Lock.longWaitIndex, Lock.refCount@lock, LongWaitLockFreeQueue.freeIndex, LongWaitLockQueue.*, E_LJPserver_Lock, E_Pserver_Lock, E_Pserver_LongWaitLockQueue, E_int32, MH_mapLint64JPserver_LongWaitLockQueue
@@ -450,6 +452,7 @@ package server
 //@   modifies LockManager.refCount, LockManagerWaitQueue.*, LockManagerRingQueue.*, LockManagerPriorityRingQueue.*, LockManagerPriorityRingQueueNode.*, LockQueue.*, Lock.aofTime, Lock.command, Lock.data, Lock.isAof, Lock.manager, Lock.protocol, Lock.refCount, E_LJPserver_Lock, E_Pserver_Lock, E_Pserver_LockManagerPriorityRingQueueNode, E_int32
 
 //@ func (*LockDB).Lock
+//@   at call PriorityMutex.Unlock assert C17.ref.requeued: implies(calls(RemoveLongExpried) == 1 && calls(AddExpried) + calls(AddMillisecondExpried) == 1 && calls(UpdateLockedLock) == 1, currentLock.refCount == atsection(currentLock.refCount) || currentLock.refCount == u8(atsection(currentLock.refCount) + 1) || (command.TimeoutFlag&0x1000 != 0 && currentLock.refCount == u8(atsection(currentLock.refCount) + 2)))
 //@   at call UpdateLockedLock assert C02.reenter.bound: implies(lockManager.locked == u32(atsection(lockManager.locked) + 1), currentLock.locked == u8(atsection(currentLock.locked) + 1) && atsection(currentLock.locked) <= command.Rcount && atsection(currentLock.locked) < 0xff && command.TimeoutFlag&0x0010 == 0)
 //@   at call FreeLockCommand assert C19.relock.frees-replaced: implies(calls(UpdateLockedLock) == 1, arg1 == atsection(currentLock.command) && currentLock.command == command)
 //@   at call PriorityMutex.Unlock assert C15.value.frame: implies(calls(ProcessLockData) == 0 && calls(ProcessAckLockData) == 0 && calls(ProcessRecoverLockData) == 0 && calls(RemoveLockManager) == 0 && calls(wakeUpWaitLocks) == 0 && calls(DoAckLock) == 0 && calls(doExpried) == 0 && calls(doTimeOut) == 0 && calls(cancelWaitLock) == 0, lockManager.currentData == atsection(lockManager.currentData))
@@ -1251,4 +1254,33 @@ package server
 //@   requires self != nil && aofLock != nil && self.lockDb != nil
 //@   at call ProcessLockCommand assert C09.replay.terms: arg1.CommandType == aofLock.CommandType && arg1.DbId == aofLock.DbId && arg1.LockId == aofLock.LockId && arg1.LockKey == aofLock.LockKey && arg1.Count == aofLock.Count && arg1.Rcount == aofLock.Rcount && arg1.ExpriedFlag == aofLock.ExpriedFlag && arg1.Timeout == 0 && arg1.Flag&protocol.LOCK_FLAG_FROM_AOF != 0 && (arg1.Flag&protocol.LOCK_FLAG_CONTAINS_DATA != 0) == (aofLock.AofFlag&0x2000 != 0 || aofLock.Flag&protocol.LOCK_FLAG_CONTAINS_DATA != 0) && (arg1.TimeoutFlag&protocol.TIMEOUT_FLAG_REQUIRE_ACKED != 0) == (aofLock.AofFlag&0x1000 != 0) && (arg1.TimeoutFlag&protocol.TIMEOUT_FLAG_RCOUNT_IS_PRIORITY != 0) == (aofLock.AofFlag&0x0010 != 0)
 //@   at call ProcessLockCommand assert C09.replay.lifetime: implies(aofLock.CommandTime < 0x10000000000 && self.lockDb.currentTime >= 0 && self.lockDb.currentTime < 0x10000000000 && self.lockDb.currentTime - aofLock.CommandTime <= ite(aofLock.ExpriedFlag&0x0040 != 0, 0xffff * 60, 0xffff), arg1.Expried == restoredLife(aofLock.ExpriedFlag, aofLock.ExpriedTime, self.lockDb.currentTime - aofLock.CommandTime))
+//@   modifies all
+
+// C20: the long-wait tables are compacted in place: before the survivors are pushed back, the cursors of the
+// underlying deque are rewound to a consistent empty state (head and tail at (0,0) of node 0, cached slices and
+// sizes of node 0)
+//@ spec func qRewound(q) = q.headNodeIndex == 0 && q.headQueueIndex == 0 && q.tailNodeIndex == 0 && q.tailQueueIndex == 0 && q.headQueue == q.queues[0] && q.tailQueue == q.queues[0] && q.headQueueSize == q.nodeQueueSizes[0] && q.tailQueueSize == q.nodeQueueSizes[0]
+//@ func (*LockDB).restructuringLongExpriedQueue
+//@   requires self != nil && longLocks != nil && longLocks.locks != nil
+//@   loop#1 entry C20.restructure.rewound: qRewound(longLocks.locks) && longLocks.lockCount == 0 && longLocks.freeCount == 0
+//@   modifies all
+//@ func (*LockDB).restructuringLongTimeOutQueue
+//@   requires self != nil && longLocks != nil && longLocks.locks != nil
+//@   loop#1 entry C20.restructure.rewound: qRewound(longLocks.locks) && longLocks.lockCount == 0 && longLocks.freeCount == 0
+//@   modifies all
+
+// C11: a follower's acknowledgement is queued with the follower's verdict: the queued item carries the reply's
+// result code, command type, ids, key and counts (a negative acknowledgement must stay negative)
+//@ func (*AofChannel).Acked
+//@   requires self != nil && commandResult != nil
+//@   at call pushAofLock assert C11.ack.verdict: aofLock.Result == commandResult.Result && aofLock.CommandType == commandResult.CommandType && aofLock.DbId == commandResult.DbId && aofLock.LockId == commandResult.LockId && aofLock.LockKey == commandResult.LockKey && aofLock.HandleType == AOF_LOCK_TYPE_ACK_ACKED && aofLock.Count == commandResult.Count && aofLock.Rcount == commandResult.Rcount
+//@   modifies all
+
+// C10: a database's role changes only while every shard mutex of that database is held (a request inside a
+// critical section sees one role from its leader test to its log push)
+//@ func (*SLock).updateState
+//@   requires self != nil
+//@   loop#2 entry C10.role.under-locks: db != nil && db.status != state
+//@   loop#2 backedge C10.role.under-locks: db.status != state
+//@   loop#3 entry C10.role.switched: db.status == state
 //@   modifies all
